@@ -76,7 +76,10 @@ pub fn build_body(w: &World, parent: &H32, body: u8, id: usize) -> Option<Vec<Tr
                 return None;
             }
             let cbp = &p.txs[0];
-            let key = (cbp.txid, 0u32);
+            // the first spendable output of the parent's coinbase
+            let key = (0..cbp.outputs.len() as u32)
+                .map(|i| (cbp.txid, i))
+                .find(|k| ledger.contains_key(k))?;
             let e = ledger.get(&key)?;
             Some(vec![
                 cb_a(),
